@@ -992,4 +992,54 @@ def SessionData_GetRefreshToken (fuel : Nat) (sd : Go.SessData) : Option (Go.Str
         else
           some (token)
 
+/-- SessionData.GetCSRF (session.go) -/
+def SessionData_GetCSRF (sd : Go.SessData) : Go.Str :=
+  let (csrf, _u1) := Go.asStr (Go.sessVal sd sd.mainSession ['c','s','r','f'])
+  csrf
+
+/-- SessionData.SetCSRF (session.go) -/
+def SessionData_SetCSRF (sd : Go.SessData) (token : Go.Str) : Go.SessData :=
+  let sd := Go.sessSetVal sd sd.mainSession ['c','s','r','f'] (Go.Any.str token)
+  sd
+
+/-- SessionData.GetNonce (session.go) -/
+def SessionData_GetNonce (sd : Go.SessData) : Go.Str :=
+  let (nonce, _u1) := Go.asStr (Go.sessVal sd sd.mainSession ['n','o','n','c','e'])
+  nonce
+
+/-- SessionData.SetNonce (session.go) -/
+def SessionData_SetNonce (sd : Go.SessData) (nonce : Go.Str) : Go.SessData :=
+  let sd := Go.sessSetVal sd sd.mainSession ['n','o','n','c','e'] (Go.Any.str nonce)
+  sd
+
+/-- SessionData.GetCodeVerifier (session.go) -/
+def SessionData_GetCodeVerifier (sd : Go.SessData) : Go.Str :=
+  let (codeVerifier, _u1) := Go.asStr (Go.sessVal sd sd.mainSession ['c','o','d','e','_','v','e','r','i','f','i','e','r'])
+  codeVerifier
+
+/-- SessionData.SetCodeVerifier (session.go) -/
+def SessionData_SetCodeVerifier (sd : Go.SessData) (codeVerifier : Go.Str) : Go.SessData :=
+  let sd := Go.sessSetVal sd sd.mainSession ['c','o','d','e','_','v','e','r','i','f','i','e','r'] (Go.Any.str codeVerifier)
+  sd
+
+/-- SessionData.GetEmail (session.go) -/
+def SessionData_GetEmail (sd : Go.SessData) : Go.Str :=
+  let (email, _u1) := Go.asStr (Go.sessVal sd sd.mainSession ['e','m','a','i','l'])
+  email
+
+/-- SessionData.SetEmail (session.go) -/
+def SessionData_SetEmail (sd : Go.SessData) (email : Go.Str) : Go.SessData :=
+  let sd := Go.sessSetVal sd sd.mainSession ['e','m','a','i','l'] (Go.Any.str email)
+  sd
+
+/-- SessionData.GetIncomingPath (session.go) -/
+def SessionData_GetIncomingPath (sd : Go.SessData) : Go.Str :=
+  let (path, _u1) := Go.asStr (Go.sessVal sd sd.mainSession ['i','n','c','o','m','i','n','g','_','p','a','t','h'])
+  path
+
+/-- SessionData.SetIncomingPath (session.go) -/
+def SessionData_SetIncomingPath (sd : Go.SessData) (path : Go.Str) : Go.SessData :=
+  let sd := Go.sessSetVal sd sd.mainSession ['i','n','c','o','m','i','n','g','_','p','a','t','h'] (Go.Any.str path)
+  sd
+
 end Oidc.Generated.Code
